@@ -95,6 +95,8 @@ type Disk struct {
 	failWrites int
 
 	Reads, Writes int
+	// Rejected counts the mutations refused because of FailNextWrites.
+	Rejected int
 
 	// Yield, when set, is called (no disk lock held) at the start of every mutation and read, and
 	// again after every completed mutation: the seam a ParkSched uses to decide which caller goroutine
@@ -272,6 +274,7 @@ func (d *Disk) apply(epoch int, kind string, ops []journalOp) error {
 	}
 	if d.failWrites > 0 {
 		d.failWrites--
+		d.Rejected++
 		d.mu.Unlock()
 		return ErrDisk
 	}
